@@ -39,6 +39,7 @@ def _feed(args):
             pass
     p = api.Project()
     target = p.new_module(cls)
+    target.name = ["Lead", "Pad", "Bass", "x"][seed % 4]       # user-editable labels repeat across modules of different types
     mc = p.new_module(api.m.MultiCtl)
     mc >> target
     ctl = cls.controllers[cname]
@@ -70,7 +71,8 @@ def _feed(args):
     vt = ctl.value_type
     return {"op": "feed", "t": t, "ctl": cname, "lo": vt.min, "hi": vt.max, "gain": gain, "quant": quant, "wmin": wmin, "wmax": wmax,
             "curve": "default" if curve is None else "custom", "unmapped": unmapped, "initial": initial, "rle": rle,
-            "outcome": outcome, "bad_input": bad, "others_unchanged": bool(others), "wide": bool(wide)}
+            "outcome": outcome, "bad_input": bad, "others_unchanged": bool(others), "wide": bool(wide),
+            "kind": "range" if type(vt).__name__ == "Range" else type(vt).__name__}
 
 
 def _feed_multi(args):
@@ -85,6 +87,8 @@ def _feed_multi(args):
     rnd = random.Random(seed)
     p = api.Project()
     mods = [p.new_module(rv.modules.MODULE_CLASSES[t]) for t, _, _, _, _ in targets]
+    for j, m in enumerate(mods):
+        m.name = ["Lead", "Pad", "Lead", "x"][(seed + j) % 4]
     src = p.new_module(api.m.Generator)
     for i, m in enumerate(mods):        # some targets already have another input: the MultiCtl's link lands in a later in-slot
         if (seed % 4 == 1 and i == len(mods) - 1) or (seed % 4 != 1 and rnd.random() < 0.4):     # (seed % 4 == 1: the last target only)
@@ -121,7 +125,7 @@ def _feed_multi(args):
         others = all(val(getattr(mods[i], n)) == before[i][n] for n in before[i] if n != cname)
         out.append({"op": "feed", "t": t, "ctl": cname, "lo": vt.min, "hi": vt.max, "gain": gain, "quant": quant, "wmin": wmin, "wmax": wmax,
                     "curve": "default", "unmapped": unmapped, "initial": before[i][cname], "rle": rles[i], "outcome": outcome, "bad_input": bad,
-                    "others_unchanged": bool(others), "wide": False,
+                    "others_unchanged": bool(others), "wide": False, "kind": "range" if type(vt).__name__ == "Range" else type(vt).__name__,
                     "fanout": "%d targets, link %d%s" % (len(targets), i, ", reloaded" if reload else "")})
     return out
 
@@ -242,13 +246,17 @@ def run(ctx):
                 cur = min(32768, cur + rnd.choice([0, 0, 1, 5, 128, 300]))
             pts.append(cur)
         return pts
-    pri = [x for x in ranged if x[2]["min"] > 0] + [x for x in ranged if x[2]["min"] < 0] + [x for x in ranged if x[2]["kind"] == "compact"]
+    pri = [x for x in ranged if x[2]["kind"] == "nooffset"] + [x for x in ranged if x[2]["min"] > 0] + [x for x in ranged if x[2]["min"] < 0] + [x for x in ranged if x[2]["kind"] == "compact"]
     for k in range(ntuples):
         t, name, c = (pri[k % len(pri)] if k < ntuples // 2 else rnd.choice(ranged))
         gain = rnd.choice(GAINS) if rnd.random() < 0.7 else rnd.randrange(1025)
         quant = rnd.choice(QUANTS) if rnd.random() < 0.7 else rnd.randrange(32769)
         wmin, wmax = window_for(c)
-        jobs.append((t, name, gain, quant, wmin, wmax, curve(), k % 10 == 9, ctx.seed + k, False))
+        cv = curve()
+        if k % 4 == 0:          # the plain case: unity gain, no quantization, linear curve, full window
+            gain, quant, cv = 256, 32768, None
+            wmin, wmax = corners[(k // 4) % 2] if c["kind"] != "compact" else (wmin, wmax)
+        jobs.append((t, name, gain, quant, wmin, wmax, cv, k % 10 == 9, ctx.seed + k, False))
     # compact-range targets under windows wider than their span (outside the helper's domain: only the range clause is
     # judged - the library may refuse a delivery, it must never store a value outside the declared range)
     compact = [x for x in ranged if x[2]["kind"] == "compact"]
